@@ -1093,7 +1093,37 @@ func famSkip(iters int) {
 		for mode := 0; mode <= 1; mode++ {
 			walkSkip(b, mode)
 		}
+		if it%3 == 0 {
+			// the same fields with every key written in one byte more than necessary (legal wire format): the walk reads each key with
+			// DecodeTag, so Skip has to return the whole raw field - in both modes
+			pb := padKeys(b)
+			for mode := 0; mode <= 1; mode++ {
+				walkSkip(pb, mode)
+			}
+		}
 	}
+}
+
+func padKeys(b []byte) []byte {
+	var out []byte
+	for len(b) > 0 {
+		num, typ, n := protowire.ConsumeTag(b)
+		if n < 0 {
+			return append(out, b...)
+		}
+		m := protowire.ConsumeFieldValue(num, typ, b[n:])
+		if m < 0 {
+			return append(out, b...)
+		}
+		key := append([]byte{}, b[:n]...)
+		if n < 5 {
+			key[n-1] |= 0x80
+			key = append(key, 0x00)
+		}
+		out = append(append(out, key...), b[n:n+m]...)
+		b = b[n+m:]
+	}
+	return out
 }
 
 // walkSkip iterates DecodeTag; Skip over b and emits the concatenation check.
